@@ -168,9 +168,10 @@ Proof.
     destruct (48 <? zlen b) eqn:Elong.
     + assert (zlen b =? 48 = false) as -> by (apply Z.eqb_neq; apply Z.ltb_lt in Elong; lia).
       destruct (e_nts_ok e) eqn:En; simpl.
-      * destruct (Hnts eq_refl) as [_ Hc]. rewrite Hc. simpl.
-        destruct (wf_first_byte (hd 0 b)); reflexivity.
-      * rewrite andb_false_r. reflexivity.
+      * destruct (Hnts eq_refl) as [Hsz Hc]. rewrite Hc. simpl.
+        assert (nts_max_packet_len <? zlen b = false) as -> by (apply Z.ltb_ge; unfold nts_max_packet_len; lia).
+        simpl. destruct (wf_first_byte (hd 0 b)); reflexivity.
+      * rewrite andb_false_r, orb_true_r. reflexivity.
     + assert (zlen b =? 48 = true) as -> by (apply Z.eqb_eq; apply Z.ltb_ge in Elong; lia).
       rewrite app_nil_r. cbn [andb orb].
       destruct (wf_first_byte (hd 0 b)); reflexivity.
@@ -812,11 +813,21 @@ Proof.
   - destruct (negb (e_nts_cookie_added e)); [discriminate|]. intros [= <-].
     rewrite Horig. cbn [andb].
     apply Z.ltb_lt in Elong. assert (zlen b =? 48 = false) as -> by (apply Z.eqb_neq; lia).
-    cbn [andb] in Ents. apply negb_false_iff in Ents.
+    cbn [andb] in Ents. apply orb_false_iff in Ents. destruct Ents as [_ Ents]. apply negb_false_iff in Ents.
     rewrite zlen_app, encode_zlen. apply Z.ltb_lt.
     specialize (Hext Ents). destruct (e_nts_ext e); [congruence|]. unfold zlen. simpl length. lia.
   - intros [= <-]. rewrite <- (app_nil_r (encode_packet (reply_packet rq e))) at 1 2.
     rewrite Horig. cbn [andb]. apply Z.ltb_ge in Elong.
     assert (zlen b =? 48 = true) as -> by (apply Z.eqb_eq; lia).
     rewrite encode_zlen. reflexivity.
+Qed.
+
+(* nts.MaxPacketLen: a datagram of more than 1024 bytes is never answered, whatever follows
+   the header and whatever the NTS code would say about it (no hypothesis on the environment) *)
+Lemma oversize_nts_not_answered : forall b e, 1024 < zlen b -> ntp_decision b e = NoReply.
+Proof.
+  intros b e Hl. unfold ntp_decision. destruct (decode_packet b); [|reflexivity].
+  assert (packet_len <? zlen b = true) as -> by (apply Z.ltb_lt; unfold packet_len; lia).
+  assert (nts_max_packet_len <? zlen b = true) as -> by (apply Z.ltb_lt; unfold nts_max_packet_len; lia).
+  reflexivity.
 Qed.
